@@ -596,19 +596,23 @@ package node
 //@   assigns r.Row64, r.Row, r.First
 //@   ensures !r.First
 
-// the iteration over a container's definitions is abstracted (it asks the node which case of a choice is active)
+// the iteration over a container's definitions is abstracted (it asks the node which case of a choice is active;
+// lookAhead panics when Choose reports an error, so a normal return means no node call failed)
+//@ macro dataDef(m meta.Meta) bool = solid(m) && (dyn(m) == *meta.Leaf || dyn(m) == *meta.LeafList || dyn(m) == *meta.Any || dyn(m) == *meta.Container || dyn(m) == *meta.List)
 //@ func newContainerMetaList(s *Selection) *containerMetaList
 //@   trusted
-//@   assigns failed
+//@   assigns nothing
 //@   ensures result != nil && fresh(result)
 //@ func newChoiceCaseIterator(s *Selection, m *meta.ChoiceCase) *containerMetaList
 //@   trusted
-//@   assigns failed
+//@   assigns nothing
 //@   ensures result != nil && fresh(result)
+// (the data definitions of a compiled schema are leafs, leaf-lists, anydata, containers and lists; choices are
+// resolved by the iterator itself)
 //@ func (self *containerMetaList) nextMeta() meta.Meta
 //@   trusted
-//@   assigns failed
-//@   ensures result != nil ==> solid(result)
+//@   assigns nothing
+//@   ensures result != nil ==> dataDef(result)
 
 // Delete: one Delete request to the parent's node, inside a balanced begin/end on the selection and its ancestors
 //@ func (sel *Selection) Delete() (err error)
@@ -666,6 +670,7 @@ package node
 //@   requires editPre(from, to) && wfSel(to) && (bubble ==> wfSelChain(to))
 //@   assigns open, failed, nodeWrites, writesAfterFail, fieldWrites, fieldPostChecks, nonNavChecks, caseClears, from.Constraints.compiled, to.Constraints.compiled
 //@   loop 1 invariant open == old(open) + chain(to, bubble) && !failed && writesAfterFail == old(writesAfterFail) && ml != nil
+//@   loop 1 invariant nodeWrites >= old(nodeWrites) && (m != nil ==> dataDef(m))
 //@   ensures stepOK(err)
 
 //@ func (e editor) edit(from *Selection, to *Selection, s editStrategy) (err error)
